@@ -33,6 +33,7 @@ Round 6: (k) the structural unpackers keep no state on the field object; closure
 function that keeps them; normaliser kinds from path facts with converting helpers followed.
 Round 7: includes the compiler rule of C09 (i'); exactly-one-of count / until decided by a truth
 table; the raw conditions may be kept in one attribute each; truth conversion three-valued.
+Round 8: mode / strategy pairings that _compile cannot produce are dropped.
 """
 import ast
 
